@@ -4,13 +4,25 @@ Property theorems only (lemmas: `Proofs/Gen.lean`).
 
 Reading recorded in DESIGN.md: "one error per entry" is per *reading* of the list — the address ×
 ports mode re-reads the list once per port (that is how C01 counts its probes, too).
+
+First the generator level (`C13_pairs` … `C13_pipeline_addrs`), then the same at the engines' error streams
+(`C13_error_stream_*`): the generator-level statements composed with C07 (packet pipeline: an error request ↦
+exactly one record on the merged error stream and no frame) and C08 (generic engine: an error entry ↦ exactly
+one error sent and no `Scan` call) over the embeddings of Model/Compose.lean (lemmas: Proofs/ComposeErr.lean).
 -/
 import SxVerif.Spec.Gen
+import SxVerif.Spec.Compose
 import SxVerif.Proofs.GenC13
+import SxVerif.Proofs.ComposeErr
+import SxVerif.Props.C07
+import SxVerif.Generated.Problems
 
 namespace SxVerif.C13
-open SxVerif.Gen SxVerif.Spec.Gen
+open SxVerif.Gen SxVerif.Spec.Gen SxVerif.Compose SxVerif.Spec.Compose
 open scoped List   -- for the `<+` (`List.Sublist`) notation, which core Lean declares `scoped`
+
+/-- the error-stream theorems are stated over the packet topology regenerated from the tree (`C07.cfg`) -/
+theorem translator_clean : Generated.translatorProblems = [] := by decide
 
 /-- pairs file: the generator's output is, line by line, the per-line expectation of the lines it
     handled — every line up to and including the first one at which it may stop (invalid JSON,
@@ -77,10 +89,82 @@ theorem C13_pipeline_addrs (ls : List Line) (excl : Option (List (Nat × Nat)))
             | .err c => { err := some c }))) :=
   Proofs.Gen.pipeline_addrs ls excl cache tbl d
 
+/-! ### C13 at the error streams
+
+`(ls.take (handled …)).map expectPair` is the per-line expectation of the lines the generator handled (Spec/Gen);
+`errors` of it lists, in file order, the cause of every bad entry among them (`C13_bad_never_probe`), `probes` of
+it the targets of the good ones.  `reqCauses` / `sentCauses` (Spec/Compose) read the causes of the request-error
+records off what the error consumer received, through the identity (= position in the stream) of the request a
+record was made for.  `!= noMAC` sets aside the ARP-cache stage's own errors (a good entry whose target has no
+MAC — C11), which are not bad entries. -/
+
+/-- **packet commands over a pairs file** (`tcp`/`udp -f`): for every list of lines, whichever optional stages
+    are stacked (exclusion filter, ARP-cache stage), every link mode and filler, every family of `Fill` draws,
+    any number `n ≥ 1` of generator workers, any writer failure pattern and receiver errors, and EVERY
+    interleaving of the pipeline that is not cancelled and has terminated (error stream drained): the
+    request-error records consumed from the merged error stream carry, as a multiset, exactly the causes of
+    the bad entries — one record per bad entry handled, with that entry's cause, none for a good entry — and
+    the frames handed to the writer are exactly the frames `Fill` built for the requests WITHOUT error
+    (`probeFrames`), whose targets are targets of good entries (`probes rs <+ …`): no probe was made for a bad
+    entry.  Hypotheses that remain: termination without cancellation; `RcvErrsOK`. -/
+theorem C13_error_stream_pairs (ls : List Line) (excl : Option (List (Nat × Nat)))
+    (cache : Option (List (Addr × Nat) × Option Nat)) (tbl) (dp di : Draws) (l : Link) (fl : Filler) :
+    ∃ rs, ipPortRequests tbl { src := .file (fun _ => some ls), ports := [], excl := excl, cache := cache }
+        [] dp di 0 = .ok rs ∧
+      probes rs <+ probes ((ls.take (handled stopsPairs ls)).map expectPair) ∧
+      ∀ o : PacketRun, o.inp.reqs = pipeReqs l fl o.rnd rs → 0 < o.inp.n → Pipe.ReachableNC C07.cfg o.inp o.st →
+        Pipe.Terminated o.st → RcvErrsOK o.inp →
+        ((reqCauses rs o.st.errsOut).filter (· != some .noMAC)).Perm
+          ((errors ((ls.take (handled stopsPairs ls)).map expectPair)).map some) ∧
+        (handed o.st).Perm (probeFrames l fl o.rnd rs) :=
+  Proofs.Compose.error_stream_pairs (Pipe.wf_of_sideConds C07.side_conditions) ls excl cache tbl dp di l fl
+
+/-- **icmp over an address file**: the same for the port-less address list -/
+theorem C13_error_stream_addrs (ls : List Line) (excl : Option (List (Nat × Nat)))
+    (cache : Option (List (Addr × Nat) × Option Nat)) (tbl) (d : Nat × Nat) (l : Link) (fl : Filler) :
+    ∃ rs, ipRequests tbl { src := .file (fun _ => some ls), ports := [], excl := excl, cache := cache } d = .ok rs ∧
+      probes rs <+ probes (((ls.take (handled stopsAddrs ls)).map expectAddr).map (fun
+            | .ip a => ({ dst := some a } : Req)
+            | .err c => { err := some c })) ∧
+      ∀ o : PacketRun, o.inp.reqs = pipeReqs l fl o.rnd rs → 0 < o.inp.n → Pipe.ReachableNC C07.cfg o.inp o.st →
+        Pipe.Terminated o.st → RcvErrsOK o.inp →
+        ((reqCauses rs o.st.errsOut).filter (· != some .noMAC)).Perm
+          ((errors (((ls.take (handled stopsAddrs ls)).map expectAddr).map (fun
+            | .ip a => ({ dst := some a } : Req)
+            | .err c => { err := some c }))).map some) ∧
+        (handed o.st).Perm (probeFrames l fl o.rnd rs) :=
+  Proofs.Compose.error_stream_addrs (Pipe.wf_of_sideConds C07.side_conditions) ls excl cache tbl d l fl
+
+/-- **application scans over a pairs file** (`socks`/`docker`/`elastic -f`): for every list of lines and
+    exclusion setting the request stream carries exactly the bad entries' causes, and for the generic engine on
+    its embedding — every worker count `W ≥ 1`, every oracle for `Scan`, every interleaving without Ctrl-C — no
+    `Scan` call is EVER made for a request that carries an error (every scanned identity is an error-free
+    request of the stream), and once `done` is closed the errors the workers sent carry exactly the bad entries'
+    causes, one each (records of failed scans carry none of them); after the drain loop has returned, what was
+    logged is what was sent, in order (`C08_err_fifo`). -/
+theorem C13_error_stream_generic (ls : List Line) (excl : Option (List (Nat × Nat)))
+    (cache : Option (List (Addr × Nat) × Option Nat)) (tbl) (dp di : Draws) :
+    ∃ rs, genericRun tbl { src := .file (fun _ => some ls), ports := [], excl := excl, cache := cache } dp di = .ok rs ∧
+      errors rs = errors ((ls.take (handled stopsPairs ls)).map expectPair) ∧
+      probes rs <+ probes ((ls.take (handled stopsPairs ls)).map expectPair) ∧
+      ∀ (c : Engine.Cfg) (orc : Nat → Engine.Outcome) (st : Engine.Sys), 0 < c.W →
+        Engine.Reachable c (Engine.init (engReqs orc rs) []) st → st.cmdCtx = false →
+        (∀ e ∈ st.scans, ∃ r, rs[e.id]? = some r ∧ r.err = none) ∧
+        (st.doneClosed = true →
+          (sentCauses rs st.errSent).Perm (errors ((ls.take (handled stopsPairs ls)).map expectPair)) ∧
+          (st.drain = .exited → st.errLogged = st.errSent)) :=
+  Proofs.Compose.error_stream_generic ls excl cache tbl dp di
+
 -- non-vacuity (tests, labelled as such)
 example : filePairs [.entry (some (.v4 1 true)) 80, .entry none 0, .entry (some (.v4 2 true)) 0, .badJson,
                      .entry (some (.v4 3 true)) 1]
     = [{ dst := some (.v4 1 true), port := 80 }, { err := some .ip }, { err := some .port }, { err := some .json }] := by
   decide
+
+-- the causes and targets the error-stream theorems speak about, on the same file
+example : errors (([.entry (some (.v4 1 true)) 80, .entry none 0, .entry (some (.v4 2 true)) 0, .badJson,
+      .entry (some (.v4 3 true)) 1].take 4).map expectPair) = [.ip, .port, .json] ∧
+    probes (([.entry (some (.v4 1 true)) 80, .entry none 0, .entry (some (.v4 2 true)) 0, .badJson,
+      .entry (some (.v4 3 true)) 1].take 4).map expectPair) = [(.v4 1 true, 80)] := by decide
 
 end SxVerif.C13
